@@ -304,8 +304,23 @@ def run_case(spec, method, processes, n, thinning, seed, nproj):
                 broken.append(row)
             exp = [expected_code(flux_violations(m, cons, dict(zip(rids, map(float, row))), tol, with_cons=False)) for row in broken]
             validated(s2, np.array(broken), exp, "reaction-space", "deliberately broken rows")
+        # 5. variable space: rows on the line through two samples (steady state kept) that break ONLY an extra constraint
+        if cons and len(xvs[0]) >= 2 and list(xvs[0].columns) == vnames:
+            x1, x2 = xvs[0].values[0], xvs[0].values[-1]
+            only_c = []
+            for t in (1.5, 2.0, 3.0, 5.0, 10.0, 30.0, -0.5, -1.0, -2.0, -4.0, -9.0, -29.0):
+                row = x1 + t * (x2 - x1)
+                bad, _ = variable_violations(m, cons, dict(zip(vnames, map(float, row))), tol)
+                if bad == {"c"}:
+                    only_c.append(row)
+            if only_c:
+                validated(s1, np.array(only_c), [None] * len(only_c), "variable-space",
+                          "rows that satisfy steady state and variable bounds but break an extra constraint")
     except Exception as e:  # noqa  (a sampler may refuse a model; it must still leave it alone)
         info["outcome"] = f"raised {type(e).__name__}: {str(e)[:80]}"
+        # the models are pre-selected by the exact oracle (feasible, finite bounds, >= 2 reactions with a non-degenerate
+        # range): the requested number of samples has to be returned
+        fail("raised", f"no samples: {type(e).__name__}: {e}")
     d = diff_obs(before, flat_obs(m, with_opt=False))
     if d:
         fail("model-changed", f"the model changed: {fmt_diff(d)}")
